@@ -325,6 +325,39 @@ fn evaluate(c: &Case) -> Outcome {
         }
     }
 
+    // 4a'. files on disk (one case in six, by size): the texture is saved under a name that was used
+    //      before for a larger texture of the same family (longer main file, more external level
+    //      files); loading that name must give exactly this texture
+    if (c.w as usize * 7 + c.h as usize * 13 + c.seed as usize) % 6 == 0 && c.w <= 256 && c.h <= 256 {
+        use wow_blp::convert::FilterType;
+        let dir = engine::scratch("c16save");
+        let path = dir.path().join("tex.blp");
+        let side = (c.w.max(c.h) * 4).clamp(16, 512).next_power_of_two();
+        let older = image::DynamicImage::ImageRgba8(image::RgbaImage::from_fn(side, side, |x, y| image::Rgba([x as u8, y as u8, (x ^ y) as u8, 255])));
+        let saved_before = matches!(
+            guard("save_blp(older, larger texture)", || image_to_blp(older, true, c.target.to_lib(), FilterType::Nearest).map(|b| wow_blp::encode::save_blp(&b, &path))),
+            Ok(Ok(Ok(())))
+        );
+        if saved_before {
+            match guard("save_blp", || wow_blp::encode::save_blp(&blp, &path)) {
+                Err(f) => fails.push(f),
+                Ok(Err(e)) => fails.push(Fail::new("save-blp-fails-for-encodable-texture", format!("{tname} {}x{}: {e}", c.w, c.h))),
+                Ok(Ok(())) => match guard("load_blp", || wow_blp::parser::load_blp(&path)) {
+                    Err(f) => fails.push(f),
+                    Ok(Err(e)) => fails.push(Fail::new("load-after-save-over-older-texture-fails", format!("{tname} {}x{} mips={}: {e}", c.w, c.h, c.mips))),
+                    Ok(Ok(p2)) => {
+                        if p2 != parsed {
+                            fails.push(Fail::new(
+                                "load-after-save-over-older-texture-differs",
+                                format!("{tname} {}x{} mips={}: saved over an older {side}x{side} texture of the same name, load_blp returns {} levels, the texture has {}", c.w, c.h, c.mips, p2.image_count(), parsed.image_count()),
+                            ));
+                        }
+                    }
+                },
+            }
+        }
+    }
+
     // 4b. the public chain arithmetic of the parsed header agrees with the demanded chain
     {
         let chain = blpcheck::expected_chain(c.w, c.h, c.mips);
